@@ -6,7 +6,8 @@ ID = "C09"
 PROP_FILE = "C09"
 RULE = ("key-handle lengths 0..255, certificate lengths 0..1024 (edges and stride), signature lengths 0..72, counters at the big-endian boundaries, "
         "arbitrary header/presence bytes, buffers empty or pre-filled, capacities of the harness menu chosen around every part boundary of each tested "
-        "response; register::Response::new with coordinates of 0..32 bytes. The answer (result and buffer) must equal the model's and an independent "
+        "response; register::Response::new with coordinates of 0..32 bytes, and for every register response whose key is 0x04||x||y (incl. "
+        "certificates with DER-like headers declaring less / as much / more than they hold) the constructor must equal the struct literal. The answer (result and buffer) must equal the model's and an independent "
         "Python transcription of the layout. Non-trivial = distinct (response, capacity, prior)")
 ASSUMPTIONS = ["iso7816::Data<S> capacities are const generics: the harness monomorphises a menu of 62 capacities; the theorem covers every S"]
 TECHNIQUE = "Coq proof: induction over the push/extend chain for every response, capacity and prior buffer (fits: prior ++ parts; overflow: failure with whole leading parts); differential run around part boundaries"
